@@ -9,7 +9,7 @@ import (
 var recFixed = ev.New("C18", "smoke-fixed",
 	"one hand-written configuration with every server protocol (direct tunnel with a domain target, socks5, http, none, ss2022), an ss2022 chain, a plain "+
 		"resolver, a route with a destination prefix criterion and the API, driven by every probe kind of the smoke script; this is also the self-test of the "+
-		"harness' protocol speakers. Non-trivial: all fourteen probes succeed.").Require("all-probes-ok")
+		"harness' protocol speakers. Non-trivial: all twenty-one probes succeed.").Require("all-probes-ok")
 
 const fixedConfig = `{
  "servers":[
@@ -17,6 +17,7 @@ const fixedConfig = `{
   {"name":"S","protocol":"2022-blake3-aes-128-gcm","tcpListeners":[{"network":"tcp","address":"127.0.0.1:@@P1@@"}],"udpListeners":[{"network":"udp","address":"127.0.0.1:@@P1@@"}],"mtu":1500,"psk":"qQln3GlVCZi5iJUObJVNCw=="},
   {"name":"K","protocol":"socks5","tcpListeners":[{"network":"tcp","address":"127.0.0.1:@@P2@@"}],"udpListeners":[{"network":"udp","address":"127.0.0.1:@@P2@@","natTimeout":"5s"}],"mtu":1500},
   {"name":"H","protocol":"http","tcpListeners":[{"network":"tcp","address":"127.0.0.1:@@P3@@"}]},
+  {"name":"F","protocol":"2022-blake3-aes-256-gcm","tcpListeners":[{"network":"tcp","address":"127.0.0.1:@@P6@@"}],"psk":"qQln3GlVCZi5iJUObJVNC6kJZ9xpVQmYuYiVDmyVTQs=","unsafeFallbackAddress":"127.0.0.1:@@ECHO@@"},
   {"name":"N","protocol":"none","tcpListeners":[{"network":"tcp","address":"127.0.0.1:@@P4@@"}],"udpListeners":[{"network":"udp","address":"127.0.0.1:@@P4@@","natTimeout":"5s"}],"mtu":1500}
  ],
  "clients":[
@@ -30,9 +31,18 @@ const fixedConfig = `{
 
 func TestSmokeFixed(t *testing.T) {
 	t.Cleanup(stopPlanServer)
-	p := &Plan{Name: "fixed", Config: fixedConfig, Ports: 6,
-		Listen: []string{"tcp:@@P0@@", "udp:@@P0@@", "tcp:@@P1@@", "udp:@@P1@@", "tcp:@@P2@@", "udp:@@P2@@", "tcp:@@P3@@", "tcp:@@P4@@", "udp:@@P4@@", "tcp:@@P5@@"},
+	p := &Plan{Name: "fixed", Config: fixedConfig, Ports: 7,
+		Listen: []string{"tcp:@@P0@@", "udp:@@P0@@", "tcp:@@P1@@", "udp:@@P1@@", "tcp:@@P2@@", "udp:@@P2@@", "tcp:@@P3@@", "tcp:@@P4@@", "udp:@@P4@@", "tcp:@@P5@@", "tcp:@@P6@@"},
 		Probes: []Probe{
+			// port-scanner behaviour first (also against the ss2022 listener with a fallback address)
+			{Kind: "scan-close", Server: "F", Addr: "127.0.0.1:@@P6@@"},
+			{Kind: "scan-byte", Server: "F", Addr: "127.0.0.1:@@P6@@", Seed: 20},
+			{Kind: "scan-close", Server: "S", Addr: "127.0.0.1:@@P1@@"},
+			{Kind: "scan-byte", Server: "S", Addr: "127.0.0.1:@@P1@@", Seed: 21},
+			{Kind: "scan-close", Server: "K", Addr: "127.0.0.1:@@P2@@"},
+			{Kind: "scan-byte", Server: "H", Addr: "127.0.0.1:@@P3@@", Seed: 22},
+			// 32+11+16 bytes that cannot authenticate: relayed to the fallback (echo) target and back
+			{Kind: "reject", Server: "F", Addr: "127.0.0.1:@@P6@@", Seed: 23, Size: 59, ExpectFB: true},
 			{Kind: "tcp-tunnel", Server: "T", Addr: "127.0.0.1:@@P0@@", Seed: 1, Size: 100, ExpectEcho: true},
 			{Kind: "udp-tunnel", Server: "T", Addr: "127.0.0.1:@@P0@@", Seed: 2, Size: 100, ExpectEcho: true},
 			{Kind: "tcp-socks5", Server: "K", Addr: "127.0.0.1:@@P2@@", Target: "echo.test:@@ECHO@@", Seed: 3, Size: 1000, ExpectEcho: true},
